@@ -642,14 +642,21 @@ func genAffinity(r *rng, c genCfg) (*scenario, string) {
 	sc := &scenario{errOwner: map[int]int{}}
 	T := r.intn(7)
 	S := (T + 1 + r.intn(5)) % 7
+	nilNamed := r.chance(1, 6)
+	if nilNamed {
+		T = tyE0 // a pointer type: the value under the parameter's own name is a nil pointer (a value like any other)
+	}
 	n := c.names[r.intn(len(c.names))]
 	target := &fnSpec{ID: 0, Ins: []lab{{Name: n, Ty: S}}, Script: "ok", OForm: "pos", Form: []string{"struct", "ptr", "built"}[r.intn(3)]}
 	sc.Funcs = append(sc.Funcs, target)
 	vid := 1
 	sc.Opts = append(sc.Opts, optSpecC{Kind: "named", Name: n, Ty: T, Vid: vid})
+	if nilNamed {
+		sc.Opts[0].Vid = 0
+	}
 	if r.chance(1, 3) {
 		// family B with the same-named value supplied under a subtype (the name-using converter takes it without)
-		sc.Opts[len(sc.Opts)-1] = optSpecC{Kind: "namedsub", Name: n, Ty: T, Vid: vid, Sub: []string{"foo", "bar"}[r.intn(2)]}
+		sc.Opts[len(sc.Opts)-1] = optSpecC{Kind: "namedsub", Name: n, Ty: T, Vid: sc.Opts[0].Vid, Sub: []string{"foo", "bar"}[r.intn(2)]}
 	}
 	var extra string
 	if r.chance(1, 2) {
@@ -673,11 +680,14 @@ func genAffinity(r *rng, c genCfg) (*scenario, string) {
 			target.Ins = append(target.Ins, lab{Name: pn, Ty: S, Sub: psub})
 			vid++
 			o := optSpecC{Kind: "named", Name: pn, Ty: T, Vid: vid}
+			if nilNamed && pn == n {
+				o.Vid = 0
+			}
 			if r.chance(1, 4) { // the matching input carries a subtype, the parameter does not
 				o.Kind, o.Sub = "namedsub", []string{"foo", "bar"}[r.intn(2)]
 			}
 			sc.Opts = append(sc.Opts, o)
-			wants = append(wants, fmt.Sprintf("%s:%d", pn, vid))
+			wants = append(wants, fmt.Sprintf("%s:%d", pn, o.Vid))
 		}
 		others := []string{"m1", "m2", "m3", "m4", "m5", "m6"}
 		k := 1 + r.intn(6)
